@@ -70,8 +70,12 @@ fn ktype_of<K: TestKey>() -> &'static str {
 /// interleaved and abandoned transactions, in-process reopen, async mode.
 fn build_case<K: TestKey>(p: &Params, id: u64) -> Case<K> {
     let mut rng = Rng::derive(p.seed ^ 0xC3A5, id);
-    let class_id = id % 9;
+    let class_id = id % 10;
     let (class, n_ops, sync): (&'static str, u64, bool) = match class_id {
+        // first-time initialisation WITH the pre-created tree of 65 536 directories; kill points
+        // are sampled (every non-mkdir call, a dozen of the mkdirs)
+        9 if p.mode == "kill" => ("pre-create", 3, true),
+        9 => ("transactions", 3, true),
         7 if p.mode == "kill" => ("cross-device-shards", 1000, true),
         7 => ("rollover", 2, true),
         // one range removal over ~140 keys (reached by the thorough tier only: ~1500 kill points)
@@ -121,6 +125,13 @@ fn build_case<K: TestKey>(p: &Params, id: u64) -> Case<K> {
         });
         ops.push(Op::Put { key: g.keys[1].clone(), content: g.contents[0], chunks: vec![] });
         ops.push(Op::Remove { key: long });
+        for op in &ops {
+            mr.step(op);
+        }
+    } else if class == "pre-create" {
+        for i in 0..4u32 {
+            ops.push(Op::Put { key: g.keys[(i % 2) as usize].clone(), content: Content::new(800 + i, 30 + i as usize), chunks: vec![] });
+        }
         for op in &ops {
             mr.step(op);
         }
@@ -278,6 +289,9 @@ fn run_args<K: TestKey>(case: &Case<K>, root: &Path, script: &Path, ack: &Path, 
     ];
     if observe {
         v.push("--observe".into());
+    }
+    if case.class == "pre-create" {
+        v.push("--pre-create".into());
     }
     v
 }
@@ -964,7 +978,7 @@ fn kill_job<K: TestKey>(p: &Params, case: &Case<K>, tr: &TraceRun, k: u64, rep: 
     }
     let acked_versions = acked_versions_of(&ackinfo);
     // (in the cross-device layout puts are expected to fail, so there is nothing to continue with)
-    let with_cont = (p.thorough || k % 3 == 0) && case.class != "cross-device-shards";
+    let with_cont = (p.thorough || k % 3 == 0 || case.class == "pre-create") && case.class != "cross-device-shards";
     let findings = judge_image(
         p,
         case,
@@ -983,7 +997,7 @@ fn kill_job<K: TestKey>(p: &Params, case: &Case<K>, tr: &TraceRun, k: u64, rep: 
         rep.violate(f, replay_json(p, case, k, &site));
     }
     // nested: crash the recovery itself at every one of its calls
-    let nested = clean && (p.thorough || k % 7 == 0) && p.only_k.is_none_or(|_| true);
+    let nested = clean && (p.thorough || k % 7 == 0) && case.class != "pre-create" && case.class != "cross-device-shards";
     if nested {
         nested_kill(p, case, &ackinfo, k, &site, rep);
     }
@@ -1739,6 +1753,20 @@ fn run_all<K: TestKey>(p: &Params, ids: &[u64], threads: usize, deadline: std::t
             "kill" => {
                 let ks: Vec<u64> = match p.only_k {
                     Some(k) => vec![k],
+                    None if cases[ci].class == "pre-create" => {
+                        // 65 536 mkdirs: all other calls, plus a seeded dozen of the mkdirs
+                        let mut rng = Rng::derive(p.seed ^ 0x9C3, cases[ci].id);
+                        let mkdirs: Vec<u64> = t.labels.iter().filter(|(_, l)| l.as_str() == "mkdir:cas").map(|(k, _)| *k).collect();
+                        let mut ks: Vec<u64> = t.labels.iter().filter(|(_, l)| l.as_str() != "mkdir:cas").map(|(k, _)| *k).collect();
+                        for _ in 0..12 {
+                            if !mkdirs.is_empty() {
+                                ks.push(*rng.pick(&mkdirs));
+                            }
+                        }
+                        ks.sort();
+                        ks.dedup();
+                        ks
+                    }
                     None => (1..=t.total_calls).collect(),
                 };
                 for k in ks {
@@ -1760,6 +1788,9 @@ fn run_all<K: TestKey>(p: &Params, ids: &[u64], threads: usize, deadline: std::t
             _ => jobs.push(Job::Power { case: ci }),
         }
     }
+    // seeded shuffle: if the time budget cuts the run short, every class loses a fraction of its
+    // points instead of the last classes losing all of theirs
+    Rng::new(p.seed ^ 0x5AFE).shuffle(&mut jobs);
     let next = AtomicUsize::new(0);
     let power_budget = AtomicUsize::new(if p.thorough { 400_000 } else { 6_000 });
     std::thread::scope(|s| {
